@@ -419,6 +419,10 @@ func (fr *Frame) execInstr(in ssa.Instruction) {
 			l := &Loc{Kind: LBox, Ref: ref, Type: elem}
 			fr.env[in] = Val{T: ref, Loc: l}
 			fr.store(l, tm.Zero(elem))
+			if fr.ownBoxes == nil {
+				fr.ownBoxes = map[string]*Loc{}
+			}
+			fr.ownBoxes[ref.S] = l
 		}
 	case *ssa.Store:
 		addr := fr.val(in.Addr)
@@ -430,6 +434,9 @@ func (fr *Frame) execInstr(in ssa.Instruction) {
 		if v.Loc != nil && v.T.S == "" {
 			// storing an address: give it a term
 			v.T = fr.termOf(v)
+		}
+		if l.Kind != LReg {
+			fr.markEscaped(v)
 		}
 		fr.store(l, fr.termOf(v))
 		if g, ok := in.Addr.(*ssa.Global); ok && fr.top && fr.R.inInit {
